@@ -354,10 +354,10 @@ class Case:
 
 def case_from_op(op: str) -> Case:
     a = op.split(" ")
-    if a[0] in ("spec_eval", "spec_eval_x"):
+    if a[0] in ("spec_eval", "spec_eval_x", "spec_eval_h"):
         c = Case("eval", int(a[1]), (unhx(a[2]), parse_stack(a[3])), a[4], a[5])
         t = a[6]
-    elif a[0] in ("spec_verify", "spec_verify_x"):
+    elif a[0] in ("spec_verify", "spec_verify_x", "spec_verify_h"):
         c = Case("verify", int(a[1]), (unhx(a[2]), unhx(a[3]), parse_stack(a[4])), a[5])
         t = a[6]
     else:
